@@ -1,0 +1,52 @@
+//! Verification hooks: thin public wrappers around crate-private items so that an external
+//! harness can drive them. Compiled only with `--cfg raindb_verif`; nothing in the crate depends
+//! on this module.
+#![allow(missing_docs, missing_debug_implementations, clippy::all)]
+
+use std::path::Path;
+use std::sync::Arc;
+
+use crate::fs::FileSystem;
+
+/// Wrappers for `src/logs.rs` and `src/utils/crc.rs`.
+pub mod logs {
+    use super::*;
+    use crate::logs::{LogReader, LogWriter};
+
+    pub struct Writer(LogWriter);
+
+    impl Writer {
+        pub fn new(fs: Arc<dyn FileSystem>, path: &Path, appending: bool) -> Result<Self, String> {
+            LogWriter::new(fs, path, appending)
+                .map(Writer)
+                .map_err(|e| format!("{:?}", e))
+        }
+
+        pub fn append(&mut self, data: &[u8]) -> Result<(), String> {
+            self.0.append(data).map_err(|e| format!("{:?}", e))
+        }
+    }
+
+    pub struct Reader(LogReader);
+
+    impl Reader {
+        pub fn new(fs: Arc<dyn FileSystem>, path: &Path, offset: usize) -> Result<Self, String> {
+            LogReader::new(fs, path, offset)
+                .map(Reader)
+                .map_err(|e| format!("{:?}", e))
+        }
+
+        /// Returns `(record, reached_eof)`.
+        pub fn read_record(&mut self) -> Result<(Vec<u8>, bool), String> {
+            self.0.read_record().map_err(|e| format!("{:?}", e))
+        }
+    }
+
+    pub fn mask_checksum(c: u32) -> u32 {
+        crate::utils::crc::mask_checksum(c)
+    }
+
+    pub fn unmask_checksum(c: u32) -> u32 {
+        crate::utils::crc::unmask_checksum(c)
+    }
+}
